@@ -32,6 +32,8 @@ structure Settled (s : St) (names : List Named) : Prop where
   nodup : (names.map (·.d.rname)).Nodup
   rnameNe : ∀ n ∈ names, n.d.rname ≠ ""
   noGen : ∀ n ∈ names, n.gen = false
+  /-- the API server accepts every desired resource (none is rejected as invalid) -/
+  valid : ∀ n ∈ names, n.d.content ≠ invalidContent
   obj : ∀ n ∈ names, ∃ o ∈ s.objs, key o = nkey n ∧ o.annot = n.d.rname ∧ o.ctrl = .xr ∧
     o.content = n.d.content ∧ o.ssa = true
   refs : s.refs = refsOf names
@@ -137,15 +139,15 @@ theorem mapObj_id {objs : List CObj} {k n : String} {f : CObj → CObj}
   · simp [hm]
 
 theorem exec_apply_some {s : St} {k n a : String} {c : Nat} {o : CObj} (h : findObj s.objs k n = some o)
-    (hc : o.ctrl ≠ .other) : exec s (.apply k n a c) =
+    (hc : o.ctrl ≠ .other) (hv : c ≠ invalidContent) : exec s (.apply k n a c) =
       ({ s with objs := mapObj s.objs k n (fun o => { o with annot := a, ctrl := .xr, content := c, ssa := true }) }, .ok) := by
-  simp [exec, h, hc]
+  simp [exec, h, hc, hv]
 
 theorem exec_apply_settled {s : St} {names : List Named} (h : Settled s names) (n : Named) (hn : n ∈ names) :
     exec s (.apply n.d.kind n.name n.d.rname n.d.content) = (s, .ok) := by
   obtain ⟨o, hf, ha, hc, hct, hs, _, _⟩ := h.find n hn
   have hne : o.ctrl ≠ .other := by rw [hc]; decide
-  rw [exec_apply_some hf hne]
+  rw [exec_apply_some hf hne (h.valid n hn)]
   have : mapObj s.objs n.d.kind n.name (fun o => { o with annot := n.d.rname, ctrl := .xr, content := n.d.content, ssa := true }) = s.objs := by
     apply mapObj_id
     intro o2 ho2 hm
@@ -176,7 +178,8 @@ theorem exec_statusUpdate_ok (s : St) : exec s (.statusUpdate (some s.xrRv)) = (
 /-- **Quiescence (function composer).** From a settled store a fault-free reconcile, whatever
 map orders it happens to iterate in, returns `success` and leaves the store exactly as it
 was: every write it issues is a no-op (same references, same content, same resourceVersion). -/
-theorem quiescent_fn {s : St} {names : List Named} (h : Settled s names) (ch : Choices) (hc : ChOK ch) :
+theorem quiescent_fn {s : St} {names : List Named} (h : Settled s names) (ch : Choices) (hc : ChOK ch)
+    (hv : ch.ver = s.refsVer) :
     runOk (reconcile (.fn (fun _ => .desired (names.map (·.d))) ch)) s = (s, some .success) := by
   have hg := h.good
   -- the settled object behind a reference
@@ -248,7 +251,7 @@ theorem quiescent_fn {s : St} {names : List Named} (h : Settled s names) (ch : C
   rw [hund, hgc]
   simp only [gcFn, wcall]
   -- the references are already the ones the composer would write
-  have hpatch : exec s (.patchRefs (refsOf names)) = (s, .ok) := by simp [exec, h.refs]
+  have hpatch : exec s (.patchRefs ch.ver (refsOf names)) = (s, .ok) := by simp [exec, h.refs, hv]
   rw [runOk_call, hpatch]
   simp only []
   rw [runOk_applyFn_settled h _ _ _ true (fun n hn => (hc.apply _ _).mp hn)]
